@@ -28,14 +28,31 @@ Proof.
   intros W. unfold IP6_IsValid, andr, lenN. destruct (40 <=? N.of_nat (len v)) eqn:E; cbn [bind]; [|discriminate].
   intros _. lia.
 Qed.
+Lemma IP6_valid_payload v : wf v -> IP6_IsValid v = Ok true ->
+  be16 (nth 4 (arr v) 0) (nth 5 (arr v) 0) + 40 <= N.of_nat (len v).
+Proof.
+  intros W. unfold wf in W. unfold IP6_IsValid, andr, lenN, IP6_PayloadLen_n.
+  destruct (40 <=? N.of_nat (len v)) eqn:E; cbn [bind]; [|discriminate].
+  rewrite be16_at_ok by lia. cbn [bind]. simpl Nat.add.
+  destruct (be16 (nth 4 (arr v) 0) (nth 5 (arr v) 0) + 40 <=? N.of_nat (len v)) eqn:E2; [|discriminate]. intros _. lia.
+Qed.
 Lemma IP6_safe v : wf v -> bytes_ok (arr v) -> IP6_IsValid v = Ok true -> getters_ok [] IP6_getters v.
-Proof. intros W B H. apply IP6_valid_len in H; [|exact W]. unfold IP6_getters. std_safe W H. Qed.
+Proof.
+  intros W B H. pose proof (IP6_valid_payload v W H) as HP. apply IP6_valid_len in H; [|exact W]. unfold IP6_getters. std_safe W H.
+  (* Payload: p[40:40+PayloadLen] *)
+  intros _. unfold getter_ok. unfold_getter. slices. unfold rsl. change (4 + 1)%nat with 5%nat in *. unfold be16 in *.
+  rewrite sl_ok by lia. cbn [bind len]. split; [apply safe_Ok | inside_tac].
+Qed.
 Lemma IP6_spec v : wf v -> bytes_ok (arr v) -> IP6_IsValid v = Ok true -> getters_spec [] IP6_getters IP6_specs v.
 Proof.
-  intros W B H. apply IP6_valid_len in H; [|exact W]. unfold IP6_getters, IP6_specs. std_spec W B H L.
+  intros W B H. pose proof (IP6_valid_payload v W H) as HP. apply IP6_valid_len in H; [|exact W]. unfold IP6_getters, IP6_specs. std_spec W B H L.
   - c02_fixed B L. simpl Nat.add. rewrite flow_label by assumption. rewrite N.div_1_r. reflexivity.
+  - (* Payload *) intros _. unfold_getter. slices. unfold rsl. change (4 + 1)%nat with 5%nat in *. unfold be16 in *.
+    rewrite sl_ok by lia. cbn [bind len].
+    norm_bits. view_fields L. pow_lits. byte_bounds B. change (4 + 1)%nat with 5%nat in *. strip; lia.
   - c02_fixed B L. simpl Nat.add. rewrite traffic_class by assumption. reflexivity.
 Qed.
+
 
 (* ---------------- plain length-validated types ---------------- *)
 Ltac valid_len H := unfold lenN in H; injection H as H.
